@@ -16,6 +16,11 @@ CLAIMS = {
         note=TRUST + 'assumes the SmtString invariant (length <= i32::MAX, elements <= MAX_CHAR) for arguments; ghost-predicate axioms are the definitional unfoldings stated in smtlint/rules/c06.py',
         tech='abstract interpretation of MIR with inferred inductive loop invariants (conjunctions of difference constraints and ghost predicates), per-leaf entailment against the SMT-LIB spec',
         ref='5.C06'),
+    'C08': dict(
+        text='static: (R3) typestate fixpoint of the literal parser: the abstract post of accept(x) for an arbitrary char is iterated over partitions (state, buffered count) with an interval for the escape code from new_automaton() to a fixpoint; at every site it checks no panic, the exact set of escape forms accepted (\\u + 4 hex; \\u{ + 1..5 hex + } with value <= 0x2FFFF), value accumulation 16c+digit, that each character is consumed exactly once and that malformed attempts are flushed verbatim before the current character; (R1/R2) decision table of the three printers over the code point, with format_args! templates decoded from MIR: printable ASCII only, quote doubled, raw output never for characters special to the parser, and every escape form among those the parser analysis found accepted, with the right digit count.',
+        note=TRUST + 'core::fmt template encoding as documented in the toolchain (decoder self-test on every run); hex formatting trusted (std)',
+        tech='object typestate fixpoint by abstract interpretation of MIR + decision tables over a scalar input; writer/reader agreement between printer table and parser typestate',
+        ref='5.C08'),
     'C09': dict(
         text='static: conversion tables (char_is_digit, str_from_code, str_to_code, str_is_digit, str_len, str_from_int) decided per leaf in both build configurations; str_to_int proved to return the decimal value (ghost predicate Val carried through the loop as an inferred invariant), -1 exactly on empty/non-digit input, and to panic only where the exact value exceeds i32::MAX, with every arithmetic operation and cast discharged in the configuration without overflow checks; vector_lt/vector_le proved to decide at the first difference (ghost predicate Eq).',
         note=TRUST + 'assumes the SmtString invariant for arguments; i32::to_string is trusted (std); the round trips follow from the tables on paper',
@@ -31,6 +36,11 @@ CLAIMS = {
         note=TRUST + 'assumes start<=end for finite ranges; product monotonicity is the only non-linear lemma used by the decision procedure',
         tech='abstract interpretation of MIR (trace partitioning, linear + monomial constraints), per-leaf entailment against spec regions',
         ref='5.C15'),
+    'C17': dict(
+        text='static taint analysis over abstract values: every function that constructs a SmtString (call-graph inventory of callers of make/make_from_slice, floor checked) must build contents whose parts are provably <= MAX_CHAR (single elements by entailment, slices of SmtString arguments by induction, collected maps by their closure body, vectors under an all(<= MAX_CHAR) path fact, loop-carried buffers by their append sites); integer constructors keep valid values and substitute 0xFFFD exactly; the parser typestate shows every appended element is good and every buffered char ASCII; SmtString aggregates only in make/EMPTY/derived Clone, content field private, no &mut exposure.',
+        note=TRUST + 'SmtString arguments assumed good (induction over string construction); char <= 0x10FFFF',
+        tech='taint / value-range analysis by abstract interpretation of MIR, call-graph inventory of sinks, typestate fixpoint for the parser',
+        ref='5.C17'),
     'C20': dict(
         text='static: every CharSet method is abstractly interpreted on all paths in both build configurations; each leaf must entail the set-theoretic spec of the value it returns; no leaf may panic; no arithmetic may wrap. Decides the interval algebra for all inputs satisfying the CharSet invariant.',
         note=TRUST + 'assumes start<=end<=MAX_CHAR for CharSet arguments',
